@@ -149,6 +149,55 @@ def laurent_case(ctx, A, LP, rng):
                 ctx.violation("laurent:routines-disagree", "poly2laurent and PolynomialToLaurentForm denote different Laurent polynomials", replay)
 
 
+def complex_laurent_case(ctx, A, LP, rng):
+    """complex definite-parity vectors through both Laurent converters (the model is real-linear:
+    real and imaginary parts are converted separately)"""
+    d = ctx.driver()
+    deg = int(rng.integers(1, 25))
+    parity = deg % 2
+    re, im = vec(rng, deg, parity=parity), vec(rng, deg, parity=parity)
+    if all(x == 0 for x in re[1:]):
+        re[deg] = 1.0
+    if all(x == 0 for x in im[1:]):
+        im[deg] = -0.5
+    p = np.array([complex(a, b) for a, b in zip(re, im)])
+    py1 = py_call(lambda: A.poly2laurent(p.copy()))
+    py2 = py_call(lambda: LP.PolynomialToLaurentForm(list(p)))
+    mre = pl(d.ask("cheb.p2l 0 %s" % rl(F(x) for x in re)))
+    mim = pl(d.ask("cheb.p2l 0 %s" % rl(F(x) for x in im)))
+    n = max(len(mre), len(mim))
+    # each part lives on its own true degree: centre both on the common power range -n+1 .. n-1
+    def centred(l):
+        pad = (n - len(l)) // 2
+        return [Fraction(0)] * pad + l + [Fraction(0)] * pad
+    mre, mim = centred(mre), centred(mim)
+    ctx.count("laurent:complex")
+    ctx.case(["laurent-complex", re, im], True, {"conv": "poly2laurent (complex)", "deg": deg, "re": re[:4], "im": im[:4]})
+    replay = {"conversion": "laurent-complex", "re": re, "im": im}
+    scale = sum((abs(F(x)) for x in re + im), Fraction(0)) + 1
+    tol = Fraction(1, 2 ** 40) * scale
+    if py1[0] != "ok":
+        ctx.violation("p2l:complex-raises", "poly2laurent raised on a complex definite-parity polynomial: %s" % str(py1[1])[:80], replay)
+    else:
+        out = np.asarray(py1[1], dtype=complex)
+        if len(out) != n or max(max(abs(F(z.real) - a), abs(F(z.imag) - b)) for z, a, b in zip(out, mre, mim)) > tol:
+            ctx.violation("p2l:complex-value", "poly2laurent (complex input) differs from p((w+1/w)/2)", replay)
+    if py2[0] != "ok":
+        ctx.violation("p2lf:complex-raises", "PolynomialToLaurentForm raised on a complex definite-parity polynomial: %s" % str(py2[1])[:80], replay)
+    else:
+        lpz = py2[1]
+        co = np.asarray(lpz.coefs, dtype=complex)
+        got = {int(lpz.dmin) + 2 * i: z for i, z in enumerate(co)}
+        want = {-(n - 1) + 2 * i: (a, b) for i, (a, b) in enumerate(zip(mre, mim))}
+        worst = Fraction(0)
+        for k in set(got) | set(want):
+            z = got.get(k, 0j); a, b = want.get(k, (Fraction(0), Fraction(0)))
+            worst = max(worst, abs(F(float(np.real(z))) - a), abs(F(float(np.imag(z))) - b))
+        if worst > tol:
+            replay["worst"] = core.fl(worst)
+            ctx.violation("p2lf:complex-value", "PolynomialToLaurentForm (complex input) differs from p((w+1/w)/2)", replay)
+
+
 def run(tier, seed):
     ctx = core.Ctx(PROP, tier, seed, "proof", ["C11"])
     ctx.axioms = core.audit(ctx.modules)
@@ -159,6 +208,8 @@ def run(tier, seed):
         table_case(ctx, C, ctx.rng)
     for _ in range(300 if tier == "quick" else 4000):
         laurent_case(ctx, A, LP, ctx.rng)
+    for _ in range(150 if tier == "quick" else 2000):
+        complex_laurent_case(ctx, A, LP, ctx.rng)
     ctx.assumptions = ["binary64 results compared within 2^-40 * sum_k |c_k| * ||T_k||_1 (the conversions are ill-conditioned in k; "
                        "this is their backward-error scale), exact equality recorded where it occurs"]
     return ctx.finish(
